@@ -20,6 +20,14 @@ type ScriptedPubSub struct {
 	// Always, if set, is returned by every Peers() call (a stable membership).
 	Always []peer.ID
 	// Subscribes counts Subscribe calls; Live feeds subscriptions created with LiveSubs.
+	// ErrAt, if not 0, makes the ErrAt-th Peers() call fail (a transient error that
+	// consumes no snapshot); StickyLast keeps answering with the last snapshot once
+	// the script is exhausted (instead of an error); Polls counts Peers() calls and
+	// OnPoll is called on each.
+	ErrAt      int
+	StickyLast bool
+	Polls      int
+	OnPoll     func(n int)
 	Subscribes int
 	LiveSubs   bool
 	Subs       []*LiveSub
@@ -78,7 +86,17 @@ func (p *ScriptedPubSub) Peers(ctx context.Context, opts ...options.PubSubPeersO
 	if p.Always != nil {
 		return p.Always, nil
 	}
+	p.Polls++
+	if p.OnPoll != nil {
+		p.OnPoll(p.Polls)
+	}
+	if p.ErrAt != 0 && p.Polls == p.ErrAt {
+		return nil, fmt.Errorf("transient error")
+	}
 	if p.next >= len(p.Snapshots) {
+		if p.StickyLast && len(p.Snapshots) > 0 {
+			return p.Snapshots[len(p.Snapshots)-1], nil
+		}
 		return nil, fmt.Errorf("script exhausted")
 	}
 	s := p.Snapshots[p.next]
